@@ -200,7 +200,7 @@ def work(key):
 
             res = annihilate(S, prods, nm, Fk)
             out.append(obl.prove(S, f"{key}: parameter {k} declared frequencies {Fk}: L_F annihilates every product conj(U_ab)*U_cd ({len(prods)} products)", res, np.zeros(res.shape, dtype=object),
-                                 replay=rp, signature=f"{key}:param{k}", timeout=120, tol=1e-9 if any(abs(f - round(f)) > 1e-12 and abs(2 * f - round(2 * f)) > 1e-12 for f in Fk) else None))
+                                 replay=rp, signature=f"{key}:param{k}", timeout=120, over=[x for x in prods.ravel() if isinstance(x, sx.SymC)], tol=1e-9 if any(abs(f - round(f)) > 1e-12 and abs(2 * f - round(2 * f)) > 1e-12 for f in Fk) else None))
         return out
 
     try:
